@@ -13,6 +13,11 @@ CLAIMED = {
     text='get_complete and crash_safe are proved for all interleavings, any number of threads and steps, of the inode-level model of the two-phase store; the model is replayed against the real LruDiskCache (real descriptors kept open across later steps, crash = abandoned temp files + reopen) and every read on the real code is checked for completeness and foreignness.',
     note='Trusted: Lean kernel, Model/Atomic.lean (tied by h_atomic), the reading of DiskCache::put/get as lock{prepare};write;lock{commit} (src/cache/disk.rs); process crash only, no power loss.',
     ref='DESIGN.md section 4 C06, Appendix A.5, B.2'),
+
+ 'C02': dict(technique='Lean 4 proof (injectivity of the key pre-image in its components for all pairs of requests, tag separation, determinism; constants regenerated from the Rust sources) + byte-exact correspondence with the real hash_key/preprocessor_cache_entry_hash_key + metamorphic monitor',
+    text='encHash_components_inj, encHash_lang_sep, key_sound/key_complete (iff modulo an explicit hash collision), any_component_change_detected, redistribution_detected and the encPre versions are proved for all pairs of well-formed requests; language tags, CACHE_VERSION, FORMAT_VERSION and both allow-lists are regenerated from /repo on every run; the model pre-image is hashed with BLAKE3 by the harness and must equal the real key byte for byte on thousands of structured requests; the three aliasing defects are kernel-checked witnesses and known findings.',
+    note='Trusted: Lean kernel, translator for the constants, Model/Key.lean layout (tied byte-exactly), BLAKE3 is a parameter (collisions are an explicit disjunct). WF hypotheses: hex digests, NUL-free arguments < 2^56 bytes, payload not starting with 64 hex bytes / a tag extension.',
+    ref='DESIGN.md section 4 C02, Appendix A.2, B.3, B.20'),
 }
 NA_REASON = 'not yet wired into ./check in this round (model and theorems exist under lean/; see DESIGN.md section 0.1)'
 def hooks():
